@@ -263,6 +263,9 @@ class ebpps_sketch {
     template<typename O>
     void internal_merge(O&& other);
 
+    // merge with an operand of zero weight: take the smaller k and shrink the sample to it
+    void shrink_to_k(uint32_t k);
+
     ebpps_sketch(uint32_t k, uint64_t n, double cumulative_wt, double wt_max, double rho,
                  ebpps_sample<T,A>&& sample, const A& allocator = A());
 
